@@ -1,4 +1,468 @@
-//! Simulated transports (filled in with the exporter scenarios).
+//! Simulated transports: one backend for every per-crate socket shim (turmoil/madsim are not
+//! available). One simulation at a time per process (the batch driver runs workers as separate
+//! processes), so the active network hangs off a process-global slot set by the scenario.
+//!
+//! Behaviours are those of the real primitives:
+//! * datagram socket: each send is delivered whole, dropped, duplicated (UDP only) or fails with
+//!   ECONNREFUSED / ENOBUFS, per the connection's fault stream;
+//! * stream: bounded pipe per direction; `write` returns Ok(n) with n <= free space (short writes
+//!   from the fault stream), WouldBlock when full (non-blocking) or Interrupted / BrokenPipe /
+//!   ConnectionReset as injected faults; EOF on read after the peer closed;
+//! * listener/poll/waker (mio shape): edge-triggered readiness — a writable event when a stream is
+//!   registered and whenever its pipe goes from full to not-full, readable when data or EOF
+//!   arrives or a connection is queued; spurious events may be injected; `poll` parks the thread.
+
+use crate::framework::{FaultMode, Faults};
+use metrics::__verif::net::{Backend, Ready};
+use std::collections::{BTreeMap, VecDeque};
+use std::io;
+use std::net::SocketAddr;
+use std::sync::{Arc, Mutex};
+use std::time::Duration;
+
+#[derive(Clone, Debug)]
+pub struct Delivery {
+    pub endpoint: String,
+    pub conn: u64,
+    pub time: u64,
+    pub step: u64,
+    pub data: Vec<u8>,
+}
+
+#[derive(Clone, Debug)]
+pub struct SleepNote {
+    pub tid: u32,
+    pub enter: bool,
+    pub time: u64,
+    pub step: u64,
+    pub nanos: u64,
+}
+
+#[derive(Default)]
+pub struct Stream {
+    pub endpoint: String,
+    /// bytes written by the code under test, as received by the harness peer (per connection)
+    pub to_peer: Vec<u8>,
+    /// bytes the harness peer sent towards the code under test
+    pub from_peer: VecDeque<u8>,
+    pub peer_closed: bool,
+    pub local_closed: bool,
+    pub reset: bool,
+    pub ended_by_fault: bool,
+    /// outgoing pipe capacity (bytes the peer has not consumed yet)
+    pub capacity: usize,
+    pub unread_by_peer: usize,
+    pub peer_addr: Option<SocketAddr>,
+    pub poll: Option<(u64, usize, bool, bool)>,
+    pub was_full: bool,
+}
+
+#[derive(Default)]
+pub struct NetState {
+    pub next_id: u64,
+    pub dgram_socks: BTreeMap<u64, String>,
+    pub streams: BTreeMap<u64, Stream>,
+    pub deliveries: Vec<Delivery>,
+    pub sleeps: Vec<SleepNote>,
+    pub listeners: BTreeMap<u64, (SocketAddr, VecDeque<u64>, Option<(u64, usize)>)>,
+    pub polls: BTreeMap<u64, VecDeque<Ready>>,
+    pub wakers: BTreeMap<u64, (u64, usize)>,
+    pub refuse_connect: bool,
+    pub default_capacity: usize,
+}
+
+pub struct Net {
+    pub st: Mutex<NetState>,
+    pub faults: Mutex<Faults>,
+}
+
+static CURRENT: Mutex<Option<Arc<Net>>> = Mutex::new(None);
+
+/// Install a fresh simulated network for the run that is about to start.
+pub fn install(faults: FaultMode) -> Arc<Net> {
+    let n = Arc::new(Net { st: Mutex::new(NetState { next_id: 1, default_capacity: 1 << 16, ..Default::default() }), faults: Mutex::new(Faults::new(faults)) });
+    *CURRENT.lock().unwrap() = Some(n.clone());
+    n
+}
+pub fn uninstall() {
+    *CURRENT.lock().unwrap() = None;
+}
+fn cur() -> Option<Arc<Net>> {
+    if !dsim::in_sim() {
+        return None;
+    }
+    CURRENT.lock().unwrap().clone()
+}
+
+pub fn note_sleep(enter: bool, nanos: u64) {
+    if let Some(n) = cur() {
+        n.st.lock().unwrap().sleeps.push(SleepNote { tid: dsim::tid(), enter, time: dsim::now(), step: dsim::step(), nanos });
+    }
+}
+
+pub struct SimBackend;
+pub static BACKEND: SimBackend = SimBackend;
+
+fn no_net() -> io::Error {
+    io::Error::new(io::ErrorKind::Other, "no simulated network for this thread")
+}
+
+impl Net {
+    fn fault(&self, stream: &str, kinds: &[(&'static str, u64, u64)]) -> Option<(&'static str, u64)> {
+        self.faults.lock().unwrap().draw(stream, kinds)
+    }
+    fn push_event(st: &mut NetState, poll: u64, ev: Ready) {
+        let q = st.polls.entry(poll).or_default();
+        if let Some(e) = q.iter_mut().find(|e| e.token == ev.token) {
+            e.readable |= ev.readable;
+            e.writable |= ev.writable;
+        } else {
+            q.push_back(ev);
+        }
+    }
+
+    // ---- harness-side (peer) operations -----------------------------------------------------
+    /// A harness client connects to a listener with an arbitrary peer address.
+    pub fn peer_connect(&self, listener_addr: SocketAddr, peer: SocketAddr, capacity: usize) -> Option<u64> {
+        let mut st = self.st.lock().unwrap();
+        let lid = st.listeners.iter().find(|(_, l)| l.0 == listener_addr).map(|(id, _)| *id)?;
+        let id = st.next_id;
+        st.next_id += 1;
+        st.streams.insert(id, Stream { endpoint: format!("tcp://{}", listener_addr), capacity, peer_addr: Some(peer), ..Default::default() });
+        let l = st.listeners.get_mut(&lid).unwrap();
+        l.1.push_back(id);
+        if let Some((p, tok)) = l.2 {
+            Self::push_event(&mut st, p, Ready { token: tok, readable: true, writable: false });
+        }
+        drop(st);
+        dsim::notify_all();
+        Some(id)
+    }
+    /// The peer consumes up to `max` bytes the code under test wrote (frees pipe space).
+    pub fn peer_read(&self, conn: u64, max: usize) -> Vec<u8> {
+        let mut st = self.st.lock().unwrap();
+        let mut out = vec![];
+        let mut wake = None;
+        if let Some(s) = st.streams.get_mut(&conn) {
+            let n = s.unread_by_peer.min(max);
+            let start = s.to_peer.len() - s.unread_by_peer;
+            out = s.to_peer[start..start + n].to_vec();
+            s.unread_by_peer -= n;
+            if n > 0 && s.was_full {
+                s.was_full = false;
+                wake = s.poll;
+            }
+        }
+        if let Some((p, tok, _, w)) = wake {
+            if w {
+                Self::push_event(&mut st, p, Ready { token: tok, readable: false, writable: true });
+            }
+        }
+        drop(st);
+        dsim::notify_all();
+        out
+    }
+    pub fn peer_write(&self, conn: u64, data: &[u8]) {
+        let mut st = self.st.lock().unwrap();
+        let mut wake = None;
+        if let Some(s) = st.streams.get_mut(&conn) {
+            s.from_peer.extend(data.iter().copied());
+            wake = s.poll;
+        }
+        if let Some((p, tok, r, _)) = wake {
+            if r {
+                Self::push_event(&mut st, p, Ready { token: tok, readable: true, writable: false });
+            }
+        }
+        drop(st);
+        dsim::notify_all();
+    }
+    pub fn peer_close(&self, conn: u64, reset: bool) {
+        let mut st = self.st.lock().unwrap();
+        let mut wake = None;
+        if let Some(s) = st.streams.get_mut(&conn) {
+            s.peer_closed = true;
+            s.reset = reset;
+            wake = s.poll;
+        }
+        if let Some((p, tok, _, _)) = wake {
+            Self::push_event(&mut st, p, Ready { token: tok, readable: true, writable: true });
+        }
+        drop(st);
+        dsim::notify_all();
+    }
+}
+
+impl Backend for SimBackend {
+    fn dgram_connect(&self, endpoint: &str) -> io::Result<u64> {
+        let n = cur().ok_or_else(no_net)?;
+        dsim::point("net.dgram_connect");
+        let mut st = n.st.lock().unwrap();
+        let id = st.next_id;
+        st.next_id += 1;
+        st.dgram_socks.insert(id, endpoint.to_string());
+        Ok(id)
+    }
+    fn dgram_send(&self, sock: u64, buf: &[u8]) -> io::Result<usize> {
+        let n = cur().ok_or_else(no_net)?;
+        dsim::point("net.dgram_send");
+        let ep = n.st.lock().unwrap().dgram_socks.get(&sock).cloned().ok_or_else(no_net)?;
+        let udp = ep.starts_with("udp://");
+        let kinds: &[(&'static str, u64, u64)] = if udp { &[("dgram_drop", 100, 0), ("dgram_dup", 50, 0), ("send_refused", 100, 0), ("send_nobufs", 50, 0)] } else { &[("send_refused", 100, 0), ("send_nobufs", 100, 0), ("send_timeout", 50, 0)] };
+        let f = n.fault(&format!("dgram:{}", ep), kinds);
+        let mut st = n.st.lock().unwrap();
+        let d = Delivery { endpoint: ep, conn: sock, time: dsim::now(), step: dsim::step(), data: buf.to_vec() };
+        match f.map(|x| x.0) {
+            Some("dgram_drop") => Ok(buf.len()),
+            Some("dgram_dup") => {
+                st.deliveries.push(d.clone());
+                st.deliveries.push(d);
+                Ok(buf.len())
+            }
+            Some("send_refused") => Err(io::Error::new(io::ErrorKind::ConnectionRefused, "simulated ECONNREFUSED")),
+            Some("send_nobufs") => Err(io::Error::new(io::ErrorKind::Other, "simulated ENOBUFS")),
+            Some("send_timeout") => Err(io::Error::new(io::ErrorKind::WouldBlock, "simulated write timeout")),
+            _ => {
+                st.deliveries.push(d);
+                Ok(buf.len())
+            }
+        }
+    }
+    fn stream_connect(&self, endpoint: &str) -> io::Result<u64> {
+        let n = cur().ok_or_else(no_net)?;
+        dsim::point("net.stream_connect");
+        if n.fault(&format!("connect:{}", endpoint), &[("connect_refused", 150, 0)]).is_some() {
+            return Err(io::Error::new(io::ErrorKind::ConnectionRefused, "simulated ECONNREFUSED"));
+        }
+        let mut st = n.st.lock().unwrap();
+        let id = st.next_id;
+        st.next_id += 1;
+        let cap = st.default_capacity;
+        st.streams.insert(id, Stream { endpoint: endpoint.to_string(), capacity: cap, ..Default::default() });
+        Ok(id)
+    }
+    fn stream_write(&self, sock: u64, buf: &[u8]) -> io::Result<usize> {
+        let n = cur().ok_or_else(no_net)?;
+        dsim::point("net.stream_write");
+        let ep = n.st.lock().unwrap().streams.get(&sock).map(|s| s.endpoint.clone()).ok_or_else(no_net)?;
+        let f = n.fault(&format!("stream:{}:{}", ep, sock), &[("short_write", 150, 64), ("write_eintr", 60, 0), ("write_epipe", 40, 0), ("write_reset", 30, 0), ("write_wouldblock", 60, 0)]);
+        let mut st = n.st.lock().unwrap();
+        let now = dsim::now();
+        let step = dsim::step();
+        let s = st.streams.get_mut(&sock).ok_or_else(no_net)?;
+        if s.peer_closed || s.reset {
+            s.ended_by_fault = true;
+            return Err(io::Error::new(if s.reset { io::ErrorKind::ConnectionReset } else { io::ErrorKind::BrokenPipe }, "peer closed"));
+        }
+        match f {
+            Some(("write_eintr", _)) => return Err(io::Error::new(io::ErrorKind::Interrupted, "simulated EINTR")),
+            Some(("write_epipe", _)) => {
+                s.ended_by_fault = true;
+                s.peer_closed = true;
+                return Err(io::Error::new(io::ErrorKind::BrokenPipe, "simulated EPIPE"));
+            }
+            Some(("write_reset", _)) => {
+                s.ended_by_fault = true;
+                s.reset = true;
+                return Err(io::Error::new(io::ErrorKind::ConnectionReset, "simulated ECONNRESET"));
+            }
+            Some(("write_wouldblock", _)) => {
+                // a blocking socket with a write timeout reports the timeout as WouldBlock;
+                // a non-blocking one reports a momentarily full buffer the same way
+                s.was_full = true;
+                if s.poll.is_none() {
+                    s.ended_by_fault = true;
+                }
+                return Err(io::Error::new(io::ErrorKind::WouldBlock, "simulated EAGAIN"));
+            }
+            _ => {}
+        }
+        let free = s.capacity.saturating_sub(s.unread_by_peer);
+        if free == 0 && !buf.is_empty() {
+            s.was_full = true;
+            if s.poll.is_none() {
+                s.ended_by_fault = true;
+            }
+            return Err(io::Error::new(io::ErrorKind::WouldBlock, "pipe full"));
+        }
+        let mut nbytes = buf.len().min(free);
+        if let Some(("short_write", arg)) = f {
+            nbytes = nbytes.min(1 + arg as usize).max(1).min(buf.len());
+        }
+        s.to_peer.extend_from_slice(&buf[..nbytes]);
+        s.unread_by_peer += nbytes;
+        if s.unread_by_peer >= s.capacity {
+            s.was_full = true;
+        }
+        let ep2 = s.endpoint.clone();
+        st.deliveries.push(Delivery { endpoint: ep2, conn: sock, time: now, step, data: buf[..nbytes].to_vec() });
+        drop(st);
+        dsim::notify_all();
+        Ok(nbytes)
+    }
+    fn stream_read(&self, sock: u64, buf: &mut [u8]) -> io::Result<usize> {
+        let n = cur().ok_or_else(no_net)?;
+        dsim::point("net.stream_read");
+        let f = n.fault(&format!("read:{}", sock), &[("read_eintr", 50, 0), ("short_read", 150, 16)]);
+        let mut st = n.st.lock().unwrap();
+        let s = st.streams.get_mut(&sock).ok_or_else(no_net)?;
+        if s.reset {
+            return Err(io::Error::new(io::ErrorKind::ConnectionReset, "reset by peer"));
+        }
+        if let Some(("read_eintr", _)) = f {
+            return Err(io::Error::new(io::ErrorKind::Interrupted, "simulated EINTR"));
+        }
+        if s.from_peer.is_empty() {
+            if s.peer_closed {
+                return Ok(0);
+            }
+            return Err(io::Error::new(io::ErrorKind::WouldBlock, "no data"));
+        }
+        let mut k = buf.len().min(s.from_peer.len());
+        if let Some(("short_read", arg)) = f {
+            k = k.min(1 + arg as usize);
+        }
+        for b in buf.iter_mut().take(k) {
+            *b = s.from_peer.pop_front().unwrap();
+        }
+        Ok(k)
+    }
+    fn stream_peer(&self, sock: u64) -> io::Result<SocketAddr> {
+        let n = cur().ok_or_else(no_net)?;
+        let st = n.st.lock().unwrap();
+        st.streams.get(&sock).and_then(|s| s.peer_addr).ok_or_else(|| io::Error::new(io::ErrorKind::NotConnected, "no peer"))
+    }
+    fn close(&self, sock: u64) {
+        if let Some(n) = cur() {
+            let mut st = n.st.lock().unwrap();
+            if let Some(s) = st.streams.get_mut(&sock) {
+                s.local_closed = true;
+                s.poll = None;
+            }
+            st.dgram_socks.remove(&sock);
+            drop(st);
+            dsim::notify_all();
+        }
+    }
+    fn listen(&self, addr: SocketAddr) -> io::Result<u64> {
+        let n = cur().ok_or_else(no_net)?;
+        let mut st = n.st.lock().unwrap();
+        let id = st.next_id;
+        st.next_id += 1;
+        st.listeners.insert(id, (addr, VecDeque::new(), None));
+        Ok(id)
+    }
+    fn accept(&self, listener: u64) -> io::Result<(u64, SocketAddr)> {
+        let n = cur().ok_or_else(no_net)?;
+        dsim::point("net.accept");
+        let mut st = n.st.lock().unwrap();
+        let l = st.listeners.get_mut(&listener).ok_or_else(no_net)?;
+        match l.1.pop_front() {
+            Some(id) => {
+                let peer = st.streams.get(&id).and_then(|s| s.peer_addr).unwrap_or_else(|| "0.0.0.0:0".parse().unwrap());
+                Ok((id, peer))
+            }
+            None => Err(io::Error::new(io::ErrorKind::WouldBlock, "no pending connection")),
+        }
+    }
+    fn poll_create(&self) -> io::Result<u64> {
+        let n = cur().ok_or_else(no_net)?;
+        let mut st = n.st.lock().unwrap();
+        let id = st.next_id;
+        st.next_id += 1;
+        st.polls.insert(id, VecDeque::new());
+        Ok(id)
+    }
+    fn poll_register(&self, poll: u64, source: u64, token: usize, readable: bool, writable: bool) -> io::Result<()> {
+        let n = cur().ok_or_else(no_net)?;
+        let mut st = n.st.lock().unwrap();
+        if let Some(l) = st.listeners.get_mut(&source) {
+            l.2 = Some((poll, token));
+            if !l.1.is_empty() {
+                Net::push_event(&mut st, poll, Ready { token, readable: true, writable: false });
+            }
+            return Ok(());
+        }
+        let mut ev = None;
+        if let Some(s) = st.streams.get_mut(&source) {
+            s.poll = Some((poll, token, readable, writable));
+            // edge-triggered: initial readiness is reported once at registration
+            let r = readable && (!s.from_peer.is_empty() || s.peer_closed);
+            let w = writable && s.unread_by_peer < s.capacity;
+            if r || w {
+                ev = Some(Ready { token, readable: r, writable: w });
+            }
+        } else {
+            return Err(no_net());
+        }
+        if let Some(e) = ev {
+            Net::push_event(&mut st, poll, e);
+        }
+        Ok(())
+    }
+    fn poll_deregister(&self, _poll: u64, source: u64) -> io::Result<()> {
+        let n = cur().ok_or_else(no_net)?;
+        let mut st = n.st.lock().unwrap();
+        if let Some(s) = st.streams.get_mut(&source) {
+            s.poll = None;
+        }
+        if let Some(l) = st.listeners.get_mut(&source) {
+            l.2 = None;
+        }
+        Ok(())
+    }
+    fn poll_wait(&self, poll: u64, max_events: usize, timeout: Option<Duration>) -> io::Result<Vec<Ready>> {
+        let n = cur().ok_or_else(no_net)?;
+        dsim::point("net.poll");
+        if n.fault(&format!("poll:{}", poll), &[("poll_eintr", 30, 0)]).is_some() {
+            return Err(io::Error::new(io::ErrorKind::Interrupted, "simulated EINTR"));
+        }
+        let deadline = timeout.map(|d| dsim::now().saturating_add(d.as_nanos() as u64));
+        loop {
+            {
+                let mut st = n.st.lock().unwrap();
+                let q = st.polls.get_mut(&poll).ok_or_else(no_net)?;
+                if !q.is_empty() {
+                    let k = q.len().min(max_events.max(1));
+                    let evs: Vec<Ready> = q.drain(..k).collect();
+                    return Ok(evs);
+                }
+            }
+            match deadline {
+                Some(d) => {
+                    let now = dsim::now();
+                    if now >= d {
+                        return Ok(vec![]);
+                    }
+                    if dsim::wait_timeout("net.poll.wait", d - now) {
+                        return Ok(vec![]);
+                    }
+                }
+                None => dsim::wait("net.poll.wait"),
+            }
+        }
+    }
+    fn waker_create(&self, poll: u64, token: usize) -> io::Result<u64> {
+        let n = cur().ok_or_else(no_net)?;
+        let mut st = n.st.lock().unwrap();
+        let id = st.next_id;
+        st.next_id += 1;
+        st.wakers.insert(id, (poll, token));
+        Ok(id)
+    }
+    fn wake(&self, waker: u64) -> io::Result<()> {
+        let n = cur().ok_or_else(no_net)?;
+        dsim::point("net.wake");
+        let mut st = n.st.lock().unwrap();
+        if let Some((p, tok)) = st.wakers.get(&waker).copied() {
+            Net::push_event(&mut st, p, Ready { token: tok, readable: true, writable: false });
+        }
+        drop(st);
+        dsim::notify_all();
+        Ok(())
+    }
+}
+
 pub fn ext(_name: &'static str) -> Option<&'static (dyn std::any::Any + Send + Sync)> {
     None
 }
